@@ -1009,8 +1009,10 @@ class StubsStringGenerator:
         if shortest_reexport_module_id != self._get_module_id() and shortest_reexport_module is not None:
             # Get alias
             alias = None
+            node_qname = node.id.replace("/", ".")
             for qualified_import in shortest_reexport_module.qualified_imports:
-                if qualified_import.qualified_name.split(".")[-1] == node.name:
+                import_qname = qualified_import.qualified_name
+                if node_qname == import_qname or node_qname.endswith(f".{import_qname}"):
                     alias = qualified_import.alias
 
             if alias:
